@@ -66,6 +66,16 @@ CLAIMED = {
             'survive, once, in frequency order, attributes intact (all ~3.7k edge orderings).',
             'floats as reals; amplifier physics stubbed in the chain harness; 5 fixed channel positions there',
             'DESIGN.md §2 C07'),
+    'C08': ('symx',
+            'bounded symbolic execution of the real span-splitting and connector/padding completion code with z3; real auto-design '
+            'pipeline executed on a grammar of topology shapes with structure obligations on every leaf',
+            'calculate_new_length/split_fiber for every fibre length in (0,1000] km: equal spans summing to the original, split iff longer '
+            'than the maximum, none longer than it; add_missing_fiber_attributes with symbolic lengths, loss coefficients, user pads and '
+            'connectors, padding, EOL and defaults: connectors completed, EOL once, every amplifier-to-amplifier span >= padding, first fibre '
+            'padded by exactly the deficit (single, spliced, two-span lines); designed_network on 5 shapes x 8 line flavours: every '
+            'amplifier complete, junctions amplified, one-in/one-out chains, unique names, reachability unchanged.',
+            'floats as reals; pipeline-level harness uses concrete parameters per shape (structure obligations), shapes listed in the evidence',
+            'DESIGN.md §2 C08'),
     'C09': ('symx',
             'bounded symbolic execution of the real design-rule code with z3 (linear real/integer arithmetic, exact rounding); models '
             'replayed on the float code',
